@@ -453,3 +453,326 @@ Proof.
     rewrite Q2 in He. destruct He. }
   unfold keys in L. rewrite !map_length in L. unfold live, zlen in *. lia.
 Qed.
+
+(* ------------------------------------------------------------------ traces *)
+Lemma run_app : forall c t1 t2 s, run c s (t1 ++ t2) =
+  match run c s t1 with Some s1 => run c s1 t2 | None => None end.
+Proof.
+  intros c t1. induction t1 as [|e t1 IH]; intros t2 s; [reflexivity|].
+  unfold run in *. cbn. destruct (step_gen false c s e); auto.
+Qed.
+
+Lemma reach_inv : forall c tr s, cfg_ok c -> run c (init_state c) tr = Some s -> inv c s.
+Proof. intros c tr s C H. exact (run_inv _ _ _ _ C (inv_init _ C) H). Qed.
+
+(* ------------------------------------------------------------------ exit notices follow registrations *)
+Lemma In_keys_aset : forall {A} (l : list (nat * A)) k v p, In p (keys (aset k v l)) -> p = k \/ In p (keys l).
+Proof.
+  intros A l k v p H. destruct (in_dec Nat.eq_dec k (keys l)) as [Hk|Hk].
+  - rewrite keys_aset_in in H by assumption. auto.
+  - rewrite keys_aset_notin in H by assumption. apply In_snoc in H. tauto.
+Qed.
+
+Lemma step_keys : forall c s e s' p, step c s e = Some s' -> In p (keys (childs s')) ->
+  In p (keys (childs s)) \/
+  exists b r, e = MasterAdd b /\ nth_error (batches s) b = Some {| b_rem := r; b_fly := Some p |}.
+Proof.
+  intros c s e s' p H Hp. unfold step, step_gen in H. destruct e.
+  - destruct (nth_error (batches s) b) as [[[|r] [q|]]|]; try discriminate. injection H as <-. auto.
+  - destruct (nth_error (batches s) b) as [[r [q|]]|] eqn:E; try discriminate.
+    unfold m_add in H. injection H as <-. cbn [childs] in Hp.
+    apply In_keys_aset in Hp. destruct Hp as [->|Hp]; auto. right. eauto.
+  - destruct (pipe s) as [|[q stv] rest]; try discriminate.
+    destruct (m_update c q stv (childs s) (refCount s)) as [[cs' rc'] n] eqn:M. injection H as <-.
+    destruct (m_update_spec _ _ _ _ _ _ _ _ M) as (K1 & _). cbn [childs] in Hp. rewrite K1 in Hp. auto.
+  - destruct (nmem p0 (exited s) && amem p0 (childs s)); try discriminate.
+    destruct (m_del c p0 (childs s) (refCount s)) as [[cs' rc'] n] eqn:M. injection H as <-.
+    destruct (m_del_spec _ _ _ _ _ _ _ M) as (-> & _). cbn [childs] in Hp.
+    apply In_keys_adel in Hp. tauto.
+  - destruct (aget p0 (running s)) as [w|]; try discriminate.
+    destruct (wstep w (WEAccept (nreq s))) as [[[[w'|] fr] o]|]; try discriminate. injection H as <-. auto.
+  - destruct (aget p0 (running s)) as [w|]; try discriminate.
+    destruct (wstep w WEFinish) as [[[[w'|] fr] [r|]]|]; try discriminate. injection H as <-. auto.
+  - destruct (aget p0 (running s)) as [w|]; try discriminate.
+    destruct (wstep w WETimeout) as [[[[w'|] fr] o]|]; try discriminate. injection H as <-. auto.
+  - destruct (aget p0 (running s)) as [w|]; try discriminate. injection H as <-. auto.
+  - injection H as <-. auto.
+Qed.
+
+Lemma key_origin : forall c p tr s s1, run c s tr = Some s1 -> In p (keys (childs s1)) ->
+  In p (keys (childs s)) \/
+  exists tr0 b tr0' s0 r, tr = tr0 ++ MasterAdd b :: tr0' /\ run c s tr0 = Some s0 /\
+    nth_error (batches s0) b = Some {| b_rem := r; b_fly := Some p |}.
+Proof.
+  intros c p tr. induction tr as [|e tr IH]; intros s s1 H Hp.
+  - injection H as <-. auto.
+  - unfold run in H. cbn in H. destruct (step_gen false c s e) as [s'|] eqn:E; try discriminate.
+    destruct (IH _ _ H Hp) as [Hk|(tr0 & b & tr0' & s0 & r & -> & R & N)].
+    + destruct (step_keys _ _ _ _ _ E Hk) as [?|(b & r & -> & N)]; auto.
+      right. exists [], b, tr, s, r. auto.
+    + right. exists (e :: tr0), b, tr0', s0, r. repeat split; auto.
+      unfold run. cbn. rewrite E. exact R.
+Qed.
+
+Theorem exit_after_registration : forall c tr1 tr2 p s, cfg_ok c ->
+  run c (init_state c) (tr1 ++ MasterDel p :: tr2) = Some s ->
+  exists tr0 b tr0' s0 r, tr1 = tr0 ++ MasterAdd b :: tr0' /\ run c (init_state c) tr0 = Some s0 /\
+    nth_error (batches s0) b = Some {| b_rem := r; b_fly := Some p |}.
+Proof.
+  intros c tr1 tr2 p s _ H. rewrite run_app in H.
+  destruct (run c (init_state c) tr1) as [s1|] eqn:R; try discriminate.
+  unfold run in H. cbn in H.
+  destruct (nmem p (exited s1) && amem p (childs s1)) eqn:G; try discriminate.
+  apply andb_true_iff in G. destruct G as [_ G]. apply amem_In in G.
+  destruct (key_origin _ _ _ _ _ R G) as [Hk|?]; auto.
+  unfold init_state, init_gen in Hk. cbn in Hk. destruct Hk.
+Qed.
+
+(* ------------------------------------------------------------------ workers are not disturbed by others *)
+Theorem undisturbed : forall c s e s' q w, NoDup (keys (running s)) ->
+  ev_worker e <> Some q -> step c s e = Some s' -> In (q, w) (running s) -> In (q, w) (running s').
+Proof.
+  intros c s e s' q w ND Hq H Hin. unfold step, step_gen in H. destruct e; cbn in Hq.
+  - destruct (nth_error (batches s) b) as [[[|r] [f|]]|]; try discriminate. injection H as <-.
+    cbn [running]. apply in_or_app. auto.
+  - destruct (nth_error (batches s) b) as [[r [f|]]|]; try discriminate.
+    unfold m_add in H. injection H as <-. auto.
+  - destruct (pipe s) as [|[f stv] rest]; try discriminate.
+    destruct (m_update c f stv (childs s) (refCount s)) as [[cs' rc'] n]. injection H as <-. auto.
+  - destruct (nmem p (exited s) && amem p (childs s)); try discriminate.
+    destruct (m_del c p (childs s) (refCount s)) as [[cs' rc'] n]. injection H as <-. auto.
+  - destruct (aget p (running s)) as [w0|]; try discriminate.
+    destruct (wstep w0 (WEAccept (nreq s))) as [[[[w'|] fr] o]|]; try discriminate. injection H as <-.
+    cbn [running]. apply aset_In_other; [congruence | assumption].
+  - destruct (aget p (running s)) as [w0|]; try discriminate.
+    destruct (wstep w0 WEFinish) as [[[[w'|] fr] [r|]]|]; try discriminate. injection H as <-.
+    cbn [running]. apply aset_In_other; [congruence | assumption].
+  - destruct (aget p (running s)) as [w0|]; try discriminate.
+    destruct (wstep w0 WETimeout) as [[[[w'|] fr] o]|]; try discriminate. injection H as <-.
+    cbn [running]. apply In_adel. split; [congruence | assumption].
+  - destruct (aget p (running s)) as [w0|]; try discriminate. injection H as <-.
+    cbn [running]. apply In_adel. split; [congruence | assumption].
+  - injection H as <-. auto.
+Qed.
+
+(* a terminated process never comes back *)
+Definition gone (p : nat) (s : state) : Prop := (p < npid s)%nat /\ ~ In p (keys (running s)).
+
+Lemma step_gone : forall c s e s' p, step c s e = Some s' -> gone p s -> gone p s'.
+Proof.
+  intros c s e s' p H [G1 G2]. unfold step, step_gen in H. destruct e.
+  - destruct (nth_error (batches s) b) as [[[|r] [f|]]|]; try discriminate. injection H as <-.
+    split; cbn [npid running]; [lia|]. rewrite keys_snoc, In_snoc. intros [?|?]; [auto | lia].
+  - destruct (nth_error (batches s) b) as [[r [f|]]|]; try discriminate.
+    unfold m_add in H. injection H as <-. split; auto.
+  - destruct (pipe s) as [|[f stv] rest]; try discriminate.
+    destruct (m_update c f stv (childs s) (refCount s)) as [[cs' rc'] n]. injection H as <-. split; auto.
+  - destruct (nmem p0 (exited s) && amem p0 (childs s)); try discriminate.
+    destruct (m_del c p0 (childs s) (refCount s)) as [[cs' rc'] n]. injection H as <-. split; auto.
+  - destruct (aget p0 (running s)) as [w0|] eqn:G; try discriminate.
+    destruct (wstep w0 (WEAccept (nreq s))) as [[[[w'|] fr] o]|]; try discriminate. injection H as <-.
+    split; cbn [npid running]; auto. rewrite keys_aset_in by eauto using aget_keys. auto.
+  - destruct (aget p0 (running s)) as [w0|] eqn:G; try discriminate.
+    destruct (wstep w0 WEFinish) as [[[[w'|] fr] [r|]]|]; try discriminate. injection H as <-.
+    split; cbn [npid running]; auto. rewrite keys_aset_in by eauto using aget_keys. auto.
+  - destruct (aget p0 (running s)) as [w0|] eqn:G; try discriminate.
+    destruct (wstep w0 WETimeout) as [[[[w'|] fr] o]|]; try discriminate. injection H as <-.
+    split; cbn [npid running]; auto. intros Hk. apply In_keys_adel in Hk. tauto.
+  - destruct (aget p0 (running s)) as [w0|] eqn:G; try discriminate. injection H as <-.
+    split; cbn [npid running]; auto. intros Hk. apply In_keys_adel in Hk. tauto.
+  - injection H as <-. split; auto.
+Qed.
+
+Lemma run_gone : forall c tr s s' p, run c s tr = Some s' -> gone p s -> gone p s'.
+Proof.
+  intros c tr. induction tr as [|e tr IH]; intros s s' p H G.
+  - injection H as <-. assumption.
+  - unfold run in *. cbn in H. destruct (step_gen false c s e) as [s1|] eqn:E; try discriminate.
+    eapply IH; eauto. eapply step_gone; eauto.
+Qed.
+
+Theorem timeout_replaced : forall c tr1 tr2 p s1 s1' s2, cfg_ok c ->
+  run c (init_state c) tr1 = Some s1 -> step c s1 (WTimeout p) = Some s1' -> run c s1' tr2 = Some s2 ->
+  (exists r, In (p, WServing r) (running s1)) /\
+  (forall q w, q <> p -> In (q, w) (running s1) -> In (q, w) (running s1')) /\
+  ~ In p (keys (running s1')) /\ In p (exited s1') /\
+  ~ In p (keys (running s2)) /\
+  live s2 <= c_max c /\
+  (quiescent s2 -> c_init c <= live s2).
+Proof.
+  intros c tr1 tr2 p s1 s1' s2 C R1 T R2.
+  pose proof (reach_inv _ _ _ C R1) as I1.
+  assert (R : run c (init_state c) (tr1 ++ WTimeout p :: tr2) = Some s2).
+  { rewrite run_app, R1.
+    change (run c s1 (WTimeout p :: tr2)) with
+      (match step c s1 (WTimeout p) with Some s' => run c s' tr2 | None => None end).
+    rewrite T. exact R2. }
+  assert (E : exists r, aget p (running s1) = Some (WServing r) /\ running s1' = adel p (running s1) /\
+              exited s1' = exited s1 ++ [p] /\ npid s1' = npid s1).
+  { unfold step, step_gen in T. destruct (aget p (running s1)) as [[|r]|]; cbn in T; try discriminate.
+    injection T as <-. exists r. auto. }
+  destruct E as (r & G & E1 & E2 & E3). rewrite E1, E2.
+  assert (Gn : ~ In p (keys (adel p (running s1)))) by (intros Hk; apply In_keys_adel in Hk; tauto).
+  split; [exists r; apply aget_In; assumption|].
+  split; [intros q w Hq Hin; apply In_adel; auto|].
+  split; [assumption|].
+  split; [apply in_or_app; cbn; auto|].
+  split.
+  - assert (G1 : gone p s1').
+    { split; [rewrite E3; apply (i_lt_run _ _ I1); eapply aget_keys; eauto | rewrite E1; exact Gn]. }
+    exact (proj2 (run_gone _ _ _ _ _ R2 G1)).
+  - split; [exact (live_le_max _ _ _ C R) | exact (quiescent_ge_init _ _ _ C R)].
+Qed.
+
+(* ------------------------------------------------------------------ one request, one worker, one at a time *)
+Record winv (s : state) : Prop := {
+  w_acc_lt : forall r p, In (r, p) (acc s) -> (r < nreq s)%nat;
+  w_nd_acc : NoDup (keys (acc s));
+  w_served_acc : forall r p, In (r, p) (served s) -> In (r, p) (acc s);
+  w_nd_served : NoDup (keys (served s));
+  w_serving_acc : forall p r, In (p, WServing r) (running s) -> In (r, p) (acc s);
+  w_serving_unserved : forall p r, In (p, WServing r) (running s) -> ~ In r (keys (served s));
+  w_serving_inj : forall p p' r, In (p, WServing r) (running s) -> In (p', WServing r) (running s) -> p = p'
+}.
+
+Lemma In_keys_ex : forall {A} (l : list (nat * A)) k, In k (keys l) -> exists v, In (k, v) l.
+Proof.
+  intros A l k H. unfold keys in H. apply in_map_iff in H. destruct H as ([k' v] & E & H). cbn in E. subst.
+  eauto.
+Qed.
+
+Lemma winv_same : forall s s', winv s -> running s' = running s -> nreq s' = nreq s -> acc s' = acc s ->
+  served s' = served s -> winv s'.
+Proof.
+  intros s s' W E1 E2 E3 E4. destruct W. constructor; rewrite ?E1, ?E2, ?E3, ?E4; assumption.
+Qed.
+
+Lemma winv_sub : forall s s', winv s -> (forall q w, In (q, w) (running s') -> In (q, w) (running s)) ->
+  nreq s' = nreq s -> acc s' = acc s -> served s' = served s -> winv s'.
+Proof.
+  intros s s' W E1 E2 E3 E4. destruct W. constructor; rewrite ?E2, ?E3, ?E4; eauto.
+Qed.
+
+Lemma In_snoc_serving : forall (l : list (nat * wst)) n p r,
+  In (p, WServing r) (l ++ [(n, WAccepting)]) -> In (p, WServing r) l.
+Proof. intros l n p r H. apply in_app_or in H. destruct H as [?|[[=]|[]]]. assumption. Qed.
+
+Lemma step_winv : forall c s e s', NoDup (keys (running s)) -> winv s -> step c s e = Some s' -> winv s'.
+Proof.
+  intros c s e s' ND W H. unfold step, step_gen in H. destruct e.
+  - destruct (nth_error (batches s) b) as [[[|r] [f|]]|]; try discriminate. injection H as <-.
+    destruct W. constructor; cbn [running nreq acc served]; try assumption.
+    + intros q r1 Hin. apply In_snoc_serving in Hin. eauto.
+    + intros q r1 Hin. apply In_snoc_serving in Hin. eauto.
+    + intros q q' r1 Hin Hin'. apply In_snoc_serving in Hin. apply In_snoc_serving in Hin'. eauto.
+  - destruct (nth_error (batches s) b) as [[r [f|]]|]; try discriminate.
+    unfold m_add in H. injection H as <-. apply winv_same with (s := s); auto.
+  - destruct (pipe s) as [|[f stv] rest]; try discriminate.
+    destruct (m_update c f stv (childs s) (refCount s)) as [[cs' rc'] n]. injection H as <-.
+    apply winv_same with (s := s); auto.
+  - destruct (nmem p (exited s) && amem p (childs s)); try discriminate.
+    destruct (m_del c p (childs s) (refCount s)) as [[cs' rc'] n]. injection H as <-.
+    apply winv_same with (s := s); auto.
+  - destruct (aget p (running s)) as [w0|] eqn:G; try discriminate.
+    destruct w0 as [|r0]; cbn in H; try discriminate. injection H as <-.
+    destruct W. constructor; cbn [running nreq acc served].
+    + intros r q Hin. apply in_app_or in Hin. destruct Hin as [Hin|[[= <- <-]|[]]]; [|lia].
+      apply w_acc_lt0 in Hin. lia.
+    + rewrite keys_snoc. apply NoDup_snoc; auto. intros Hk. apply In_keys_ex in Hk. destruct Hk as [q Hk].
+      apply w_acc_lt0 in Hk. lia.
+    + intros r q Hin. apply in_or_app. auto.
+    + assumption.
+    + intros q r Hin. apply In_aset in Hin; auto. destruct Hin as [[-> [= ->]]|[Hn Hin]]; apply in_or_app; cbn; auto.
+    + intros q r Hin. apply In_aset in Hin; auto. destruct Hin as [[-> [= ->]]|[Hn Hin]]; eauto.
+      intros Hk. apply In_keys_ex in Hk. destruct Hk as [q' Hk]. apply w_served_acc0, w_acc_lt0 in Hk. lia.
+    + intros q q' r Hin Hin'. apply In_aset in Hin; auto. apply In_aset in Hin'; auto.
+      destruct Hin as [[Hq Hw]|[Hn Hin]]; destruct Hin' as [[Hq' Hw']|[Hn' Hin']].
+      * congruence.
+      * injection Hw as Hr. subst r. apply w_serving_acc0, w_acc_lt0 in Hin'. lia.
+      * injection Hw' as Hr. subst r. apply w_serving_acc0, w_acc_lt0 in Hin. lia.
+      * eauto.
+  - destruct (aget p (running s)) as [w0|] eqn:G; try discriminate.
+    destruct w0 as [|r0]; cbn in H; try discriminate. injection H as <-.
+    apply aget_In in G. destruct W. constructor; cbn [running nreq acc served].
+    + assumption.
+    + assumption.
+    + intros r q Hin. apply in_app_or in Hin. destruct Hin as [Hin|[[= <- <-]|[]]]; auto.
+    + rewrite keys_snoc. apply NoDup_snoc; eauto.
+    + intros q r Hin. apply In_aset in Hin; auto. destruct Hin as [[-> [=]]|[Hn Hin]]. auto.
+    + intros q r Hin. apply In_aset in Hin; auto. destruct Hin as [[-> [=]]|[Hn Hin]].
+      rewrite keys_snoc, In_snoc. intros [Hk| ->]; [eapply w_serving_unserved0; eauto|].
+      apply Hn. eauto.
+    + intros q q' r Hin Hin'. apply In_aset in Hin; auto. apply In_aset in Hin'; auto.
+      destruct Hin as [[-> [=]]|[Hn Hin]]; destruct Hin' as [[-> [=]]|[Hn' Hin']]. eauto.
+  - destruct (aget p (running s)) as [w0|] eqn:G; try discriminate.
+    destruct w0 as [|r0]; cbn in H; try discriminate. injection H as <-.
+    apply winv_sub with (s := s); auto. cbn [running]. intros q w Hin. apply In_adel in Hin. tauto.
+  - destruct (aget p (running s)) as [w0|] eqn:G; try discriminate. injection H as <-.
+    apply winv_sub with (s := s); auto. cbn [running]. intros q w Hin. apply In_adel in Hin. tauto.
+  - injection H as <-. apply winv_same with (s := s); auto.
+Qed.
+
+Lemma winv_init : forall c, winv (init_state c).
+Proof.
+  intros c. unfold init_state, init_gen. constructor; cbn; try (constructor; fail); try tauto.
+Qed.
+
+Lemma run_winv : forall c tr s s', cfg_ok c -> inv c s -> winv s -> run c s tr = Some s' -> winv s'.
+Proof.
+  intros c tr. induction tr as [|e tr IH]; intros s s' C I W H.
+  - injection H as <-. assumption.
+  - unfold run in *. cbn in H. destruct (step_gen false c s e) as [s1|] eqn:E; try discriminate.
+    apply (IH s1 s' C); [exact (step_inv c s e s1 C I E) | | exact H].
+    exact (step_winv c s e s1 (i_nd_run _ _ I) W E).
+Qed.
+
+Theorem worker_one_at_a_time : forall c tr s, cfg_ok c -> run c (init_state c) tr = Some s ->
+  (forall p w w', In (p, w) (running s) -> In (p, w') (running s) -> w = w') /\
+  NoDup (keys (acc s)) /\ NoDup (keys (served s)) /\
+  (forall r p, In (r, p) (served s) -> In (r, p) (acc s)) /\
+  (forall p p' r, In (p, WServing r) (running s) -> In (p', WServing r) (running s) -> p = p') /\
+  (forall p r, In (p, WServing r) (running s) -> In (r, p) (acc s) /\ ~ In r (keys (served s))).
+Proof.
+  intros c tr s C H. pose proof (reach_inv _ _ _ C H) as I.
+  pose proof (run_winv _ _ _ _ C (inv_init _ C) (winv_init c) H) as W. destruct W.
+  split.
+  { intros p w w' H1 H2. apply (In_aget _ _ _ (i_nd_run _ _ I)) in H1. apply (In_aget _ _ _ (i_nd_run _ _ I)) in H2.
+    congruence. }
+  repeat split; eauto.
+Qed.
+
+(* the worker loop itself: a connection is accepted only by a worker that serves nothing, the answer /
+   the timeout concern exactly the request being served *)
+Lemma wstep_shape : forall w e w' fr o, wstep w e = Some (w', fr, o) ->
+  match e with
+  | WEAccept r => w = WAccepting /\ w' = Some (WServing r) /\ fr = ST_BUSY /\ o = None
+  | WEFinish => exists r, w = WServing r /\ w' = Some WAccepting /\ fr = ST_IDLE /\ o = Some r
+  | WETimeout => exists r, w = WServing r /\ w' = None /\ fr = ST_STOPPED /\ o = None
+  end.
+Proof.
+  intros w e w' fr o H. destruct w, e; cbn in H; try discriminate; injection H as <- <- <-; eauto.
+Qed.
+
+(* ------------------------------------------------------------------ the pinned bookkeeping is refuted *)
+Lemma overshoot_pinned :
+  option_map live (run_pinned cfg14 (init_pinned cfg14) overshoot_trace) = Some 6.
+Proof. vm_compute. reflexivity. Qed.
+
+Theorem overshoot_refuted :
+  cfg_ok cfg14 /\
+  ~ (forall c tr s, cfg_ok c -> run_pinned c (init_pinned c) tr = Some s -> live s <= c_max c).
+Proof.
+  assert (C : cfg_ok cfg14) by (unfold cfg_ok, cfg14; cbn [c_init c_max c_inc]; lia).
+  split; [exact C|].
+  intros H. pose proof overshoot_pinned as L.
+  destruct (run_pinned cfg14 (init_pinned cfg14) overshoot_trace) as [s|] eqn:R; [|discriminate].
+  specialize (H cfg14 overshoot_trace s C R). cbn [option_map] in L. injection L as L.
+  rewrite L in H. unfold cfg14 in H. cbn [c_max] in H. lia.
+Qed.
+
+(* the repaired loop does not follow that trace: after the second all-busy report nothing more is
+   reserved; its valid prefix ends with 4 live workers and nothing reserved *)
+Lemma overshoot_repaired :
+  run cfg14 (init_state cfg14) overshoot_trace = None /\
+  option_map (fun s => (live s, reserved s)) (run cfg14 (init_state cfg14) (firstn 12 overshoot_trace)) = Some (4, 0).
+Proof. split; vm_compute; reflexivity. Qed.
